@@ -123,6 +123,17 @@ CORE_FUNCS = ['jwt_checker_new', 'jwt_checker_setkey', 'jwt_checker_setcb', 'jwt
               'jwt_malloc', '__jwt_freemem', 'jwt_set_alloc']
 
 
+def strcmp_qs(tier, prefix='C01'):
+    """jwt_strcmp is exact string equality, for all pairs of strings up to N characters (N above 256 / 1024)"""
+    out = []
+    for n, t, b in ((300, ('quick', 'thorough'), 600), (1100, ('thorough',), 3600)):
+        if tier in t:
+            out.append(Query('%s.strcmp.N%d' % (prefix, n), 'strcmp.c', ['libjwt/jwt-memory.c'], models=['alloc', 'jansson_model', 'env'],
+                             defines=['N=%d' % n], unwind=n + 3, checks='memsafe-noconv', budget=b, tiers=t,
+                             bounds={'string length': '<= %d characters each, all byte values' % n}))
+    return out
+
+
 class C01(Spec):
     functions = CORE_FUNCS
     design_ref = 'DESIGN.md section 5 C01, section 4'
@@ -151,6 +162,7 @@ class C01(Spec):
         qs.append(ossl_q('C01.ossl.verify.rsa_pss_eddsa', ['SIDE_VERIFY', 'NOT_ES']))
         for a in (('ES256', 'ES512') if tier == 'quick' else ('ES256', 'ES256K', 'ES384', 'ES512')):
             qs.append(ossl_q('C01.ossl.verify.%s' % a, ['SIDE_VERIFY', 'ONLY_ALG=JWT_ALG_%s' % a], budget=900))
+        qs += strcmp_qs(tier)
         return qs
 
 
@@ -334,6 +346,15 @@ class C15(Spec):
                                 unwind=12, budget=600,
                                 bounds={'pre-state': 'any subset of 3 names with values of any JSON type', 'operations': 1,
                                         'names': 'NULL, empty, two colliding, one new', 'VJ_MAXM': 4}))
+        for tg, tn in enumerate(('bhdr', 'bclaim', 'jhdr', 'jclaim')):
+            if tier == 'quick' and tn in ('bhdr', 'jhdr'):
+                continue
+            qs.append(Query('C15.map.set.nested.%s' % tn, 'typedmap.c', MAP_UNITS,
+                            models=['alloc', 'jansson_model', 'env', 'provider_stub'],
+                            defines=['VF_FREE_NOOP', 'VJ_MAXM=4', 'ONLY_OP=0', 'ONLY_TARGET=%d' % tg, 'NESTED'],
+                            unwind=12, budget=900,
+                            bounds={'pre-state': 'any subset of 3 names; object/array values carry up to 2 members of any type',
+                                    'operation': 'one JSON set (named or whole-object, with or without replace)', 'VJ_MAXM': 4}))
         return qs
 
 
@@ -542,6 +563,19 @@ class C18(Spec):
             qs.append(q)
         # provider units: no use of library entry points documented as not thread-safe (static result buffers)
         qs.append(ossl_q('C18.ossl.sign', ['SIDE_SIGN']))
+        # provider units: their own static-lifetime objects are not written by sign / verify
+        for prov, units, mk, hn in (('gnutls', GNUTLS_UNITS, gnutls_q, 'c18g_gen.h'), ('ossl', OSSL_UNITS, ossl_q, 'c18o_gen.h')):
+            bld.build_units(units)
+            overrides, listed = c18.instrument(bld, units, os.path.join(bld.gen, hn), prov)
+            sides = [('verify', ['SIDE_VERIFY'] + (['NOT_ES'] if prov == 'ossl' else [])), ('sign', ['SIDE_SIGN'])]
+            if prov == 'ossl':
+                sides.append(('verify.ES256', ['SIDE_VERIFY', 'ONLY_ALG=JWT_ALG_ES256']))
+            for side, defs in sides:
+                q = mk('C18.footprint.%s.%s' % (prov, side), defs + ['PROP_C18'])
+                q.includes = [bld.gen]
+                q.unit_override = overrides
+                q.bounds['statics enumerated'] = [x['name'] + (' (local to %s)' % x['local_in'] if x['local_in'] else '') for x in listed]
+                qs.append(q)
         return qs
 
 
